@@ -16,8 +16,15 @@ SYMS = [("QR_CODE", "HELLO-17"), ("QR_CODE", "a much longer text for a bigger sy
         ("CODE_39", "C17-OK"), ("CODE_93", "C17OK"), ("CODE_128", "Code128-c17"), ("ITF", "123456"), ("CODABAR", "A1234B")]
 
 
+_PRE = [0]
+
+
 def ev(op, a=(), kind="", bin=0, adopt=0, ys=(-1,), base=(), fmt="", txt=(), bw=0, bh=0):
-    return dict(op=op, kind=kind, bin=bin, adopt=adopt, a=list(a), ys=list(ys), base=[list(r) for r in base], fmt=fmt,
+    pre = 0
+    if op in ("brot", "bcrop"):      # two of three: the parent bitmap's matrix is requested (cached) before the child is made, and again after
+        _PRE[0] += 1
+        pre = 1 if _PRE[0] % 3 else 0
+    return dict(op=op, kind=kind, bin=bin, adopt=adopt, pre=pre, a=list(a), ys=list(ys), base=[list(r) for r in base], fmt=fmt,
                 txt=list(txt), bw=bw, bh=bh)
 
 
